@@ -304,7 +304,7 @@ Lemma payload_conn_accepted : forall c iq seq data,
   refusal c seq data = None ->
   exists d, decode_go data = Some d /\
     payload_conn c iq seq data =
-      (mkrc (rc_sid c) (rc_bs c) (seq_next (rc_seq c)) (rc_buf c ++ d) (rc_max c) (rc_registered c) (rc_rclosed c),
+      (mkrc (rc_sid c) (rc_bs c) (seq_next (rc_seq c)) (rc_buf c ++ d) (rc_max c) (rc_registered c) (rc_rclosed c) (rc_werr c),
        if iq then RAck else RSilent).
 Proof.
   intros c iq seq data H. unfold refusal in H. unfold payload_conn.
@@ -420,7 +420,7 @@ Lemma handle_payload_accepted : forall h iq sid seq data c,
   exists d, decode_go data = Some d /\
     handle_payload h iq sid seq data =
       (update h sid (fun _ => mkrc (rc_sid c) (rc_bs c) (seq_next (rc_seq c)) (rc_buf c ++ d) (rc_max c)
-                                   (rc_registered c) (rc_rclosed c)),
+                                   (rc_registered c) (rc_rclosed c) (rc_werr c)),
        if iq then RAck else RSilent).
 Proof.
   intros h iq sid seq data c Hl Hr. unfold handle_payload. rewrite Hl.
@@ -489,7 +489,7 @@ Lemma h_step_stream : forall h e h1 o sid,
   reads_of sid [e] [o] ++ buf_of h1 sid = buf_of h sid ++ accepted_bytes sid [e] [o].
 Proof.
   intros h e h1 o sid H. unfold accepted_bytes.
-  destruct e as [s bs acc|s bs lst|iq s seq data|s n|s max|s|s]; cbn [h_step] in H.
+  destruct e as [s bs acc|s bs lst|iq s seq data|s n|s max|s wacc|s|s]; cbn [h_step] in H.
   - destruct acc; injection H as <- <-; cbn [reads_of accepted_packets map concat]; rewrite app_nil_r;
       [apply buf_of_app_new|reflexivity].
   - destruct lst; injection H as <- <-; cbn [reads_of accepted_packets map concat]; rewrite app_nil_r;
@@ -532,6 +532,11 @@ Proof.
     + injection H as <- <-. cbn [reads_of accepted_packets map concat]. rewrite app_nil_r. reflexivity.
   - injection H as <- <-. cbn [reads_of accepted_packets map concat]. rewrite app_nil_r.
     apply buf_of_update_keep; intros; reflexivity.
+  - destruct (find_conn h s) as [c|].
+    + destruct (rc_rclosed c); [|destruct (rc_werr c); [|destruct wacc]]; injection H as <- <-;
+        cbn [reads_of accepted_packets map concat]; rewrite app_nil_r; try reflexivity.
+      apply buf_of_update_keep; intros; reflexivity.
+    + injection H as <- <-. cbn [reads_of accepted_packets map concat]. rewrite app_nil_r. reflexivity.
   - destruct (lookup h s); injection H as <- <-; cbn [reads_of accepted_packets map concat]; rewrite app_nil_r;
       [apply buf_of_update_keep; intros; reflexivity|reflexivity].
   - injection H as <- <-. cbn [reads_of accepted_packets map concat]. rewrite app_nil_r.
@@ -636,7 +641,7 @@ Proof.
     { unfold refusal. rewrite Hc, <- Hs, N.eqb_refl, (fits_unlimited _ _ Hm), Ea. reflexivity. }
     destruct (handle_payload_accepted _ iq _ _ _ _ Hl Hr) as [d [Hd Hh]].
     rewrite Ea in Hd. injection Hd as <-. rewrite Hh.
-    set (c1 := mkrc (rc_sid c) (rc_bs c) (seq_next (rc_seq c)) (rc_buf c ++ a) (rc_max c) (rc_registered c) (rc_rclosed c)).
+    set (c1 := mkrc (rc_sid c) (rc_bs c) (seq_next (rc_seq c)) (rc_buf c ++ a) (rc_max c) (rc_registered c) (rc_rclosed c) (rc_werr c)).
     set (h1 := update h sid (fun _ => c1)).
     assert (Hl1 : lookup h1 sid = Some c1).
     { unfold lookup, h1. rewrite find_conn_update.
